@@ -168,7 +168,10 @@ func (ni *NodeInfo) NonAllocatedResource(resourceType v1.ResourceName) float64 {
 func (ni *NodeInfo) IsTaskAllocatable(task *pod_info.PodInfo) bool {
 	if isBestEffortJob := task.ResReq.IsEmpty() &&
 		(len(task.GetAllStorageClaims()) == 0) && !task.IsMemoryRequest(); isBestEffortJob {
-		return true
+		// a best-effort pod asks for nothing but a pod slot, which has to be really free:
+		// a slot still held by a terminating pod can only be nominated
+		podSlots := task.ResReq.ScalarResources()[resource_info.PodsResourceName]
+		return float64(podSlots) <= ni.Idle.Get(v1.ResourcePods)
 	}
 
 	if allocatable := ni.isTaskAllocatableOnNonAllocatedResources(task, ni.Idle); !allocatable {
